@@ -58,7 +58,6 @@ Definition X_SETTINGS_READ := 21.    (* BufferReadError in parse_settings *)
 Definition X_PUSHPROMISE_READ := 31. (* BufferReadError in _handle_request_or_push_frame *)
 Definition X_UNBLOCK_KEY := 41.      (* KeyError self._stream[stream_id] *)
 Definition X_UNBLOCK_BLOCKED := 42.  (* StreamBlocked escaping the resume loop *)
-Definition X_INTERNAL := 99.         (* states the Python code cannot reach *)
 
 Definition H3_DATAGRAM_ERROR := 51.          (* 0x33 *)
 Definition H3_STREAM_CREATION_ERROR := 259.  (* 0x103 *)
@@ -182,18 +181,20 @@ Definition handle_rp_frame (fx : fixes) (O : oracle) (client : bool)
     if negb client then HErr H3_FRAME_UNEXPECTED else
     match data with
     | None =>
-        (* only with C14-fix-3: resume a PUSH_PROMISE that waited for the encoder stream *)
-        match (if fx_pushblock fx then s_bpush st else None) with
-        | None => HExn X_INTERNAL
-        | Some pid =>
-            match o_resume O (s_id st) with
-            | DBlocked => HBlocked st
-            | DFailed => HErr QPACK_DECOMPRESSION_FAILED
-            | DHeaders hid =>
-                if negb (fst (o_val O 3 hid)) then HErr H3_MESSAGE_ERROR else
-                endmark fx st ended [EPush (s_id st) pid hid]
-            end
-        end
+        if fx_pushblock fx then
+          (* C14-fix-3: resume a PUSH_PROMISE that waited for the encoder stream (push_id = blocked_push_id;
+             it is never None when this is reached, -1 stands for Python's None) *)
+          let pid := match s_bpush st with Some p => p | None => -1 end in
+          match o_resume O (s_id st) with
+          | DBlocked => HBlocked st
+          | DFailed => HErr QPACK_DECOMPRESSION_FAILED
+          | DHeaders hid =>
+              if negb (fst (o_val O 3 hid)) then HErr H3_MESSAGE_ERROR else
+              endmark fx st ended [EPush (s_id st) pid hid]
+          end
+        else
+          (* not reached on the pinned code (it resumes with HEADERS); Buffer(data=None) is an empty buffer *)
+          if fx_pushpromise fx then HErr H3_FRAME_ERROR else HExn X_PUSHPROMISE_READ
     | Some d =>
         match pull_uint_var d with
         | None => if fx_pushpromise fx then HErr H3_FRAME_ERROR else HExn X_PUSHPROMISE_READ
